@@ -17,6 +17,7 @@ package main
 import (
 	"encoding/hex"
 	"fmt"
+	"github.com/Trendyol/go-dcp/config"
 	"strings"
 
 	"github.com/Trendyol/go-dcp/couchbase"
@@ -32,6 +33,21 @@ func kHex(b []byte) string {
 		return "-"
 	}
 	return hex.EncodeToString(b)
+}
+
+// realCheckpointIDViaConfig: the key as the running library builds it - the group name goes through config.ApplyDefaults first
+// (dcp.newDcp) and getCheckpointID is applied to what the configuration then holds. ApplyDefaults must leave a set name alone (C17),
+// so the key is the same function of (name, vb) as before; long names are the point of this op.
+func realCheckpointIDViaConfig(vb uint16, g string) (res string) {
+	defer func() {
+		if r := recover(); r != nil {
+			res = "panic"
+		}
+	}()
+	cfg := &config.Dcp{}
+	cfg.Dcp.Group.Name = g
+	cfg.ApplyDefaults()
+	return kHex(couchbase.VerifCheckpointID(vb, cfg.Dcp.Group.Name))
 }
 
 func realCheckpointID(vb uint16, g string) (res string) {
@@ -211,6 +227,40 @@ func runC14K(c *Ctx) {
 			cp(g+d[:cut], tail)
 		}
 	}
+	// group names as the configuration hands them to the key builder; long names and pairs that share a long prefix
+	cfgKey := func(g string, vb uint16) {
+		r := realCheckpointIDViaConfig(vb, g)
+		e.Line(fmt.Sprintf("key-cfg %s %d", kHex([]byte(g)), vb), r)
+		tags := append(kNameTags(g), "cfg-key")
+		if len(g) > 128 {
+			tags = append(tags, "name-long")
+		}
+		if r != "panic" {
+			if p, ok := seen[r]; ok && (p.g != g || p.vb != vb) {
+				collisions++
+			}
+			seen[r] = pair{g, vb}
+		}
+		e.EndCase(true, tags...)
+	}
+	for i := 0; i < c.N(200, 3000); i++ {
+		g := strings.ReplaceAll(kGenName(c), ".", "x")
+		if g == "" {
+			g = "g"
+		}
+		vb := uint16(c.R.Intn(1024))
+		switch c.R.Intn(4) {
+		case 0:
+			cfgKey(g, vb)
+		default:
+			// a long common prefix (lengths around 64 / 128 / 200 / 250 bytes), two different tails
+			n := []int{60, 64, 120, 127, 128, 129, 130, 200, 250, 300}[c.R.Intn(10)]
+			p := strings.Repeat(g+"-", n/(len(g)+1)+1)[:n]
+			cfgKey(p+"a", vb)
+			cfgKey(p+"b", vb)
+			cfgKey(p, vb)
+		}
+	}
 	e.Line("key-collisions", fmt.Sprint(collisions))
 	e.EndCase(true, "collisions")
 	c.Extra["distinct_checkpoint_keys"] = len(seen)
@@ -231,7 +281,7 @@ func runC14K(c *Ctx) {
 		add("x" + p + "y") // prefix in the middle
 		add(" " + p)
 		add(strings.ToUpper(p) + "k")
-		add(p[1:] + "k") // first byte missing
+		add(p[1:] + "k")              // first byte missing
 		for i := 0; i < len(p); i++ { // one byte changed
 			b := []byte(p + "k")
 			b[i] ^= 0x20
